@@ -24,6 +24,9 @@ Ltac xinv H :=
       apply xbind_ok in H; destruct H as [a [Ha H]]
   end.
 
+Lemma lift_ok' {A} (r : res A) a : lift r = XOk a -> r = Ok a.
+Proof. destruct r; simpl; intros H; inversion H; reflexivity. Qed.
+
 Lemma xmapM_nth {A B} (f : A -> xres B) l : forall l', xmapM f l = XOk l' ->
   length l' = length l /\
   forall k x, nth_error l k = Some x -> exists y, nth_error l' k = Some y /\ f x = XOk y.
@@ -102,16 +105,18 @@ Qed.
 (* what a statement of the program becomes in the placed list *)
 Definition is_repeat (s : stmt) : bool := match s with Repeat _ _ | Include _ _ => true | _ => false end.
 
-Inductive flat : list stmt -> list stmt -> Prop :=
-| flat_nil : flat [] []
-| flat_leaf s r r' : is_repeat s = false -> flat r r' -> flat (s :: r) (s :: r')
-| flat_base e r r' : flat r r' -> flat (Skip e :: r) (Link e :: r')
+(* [cnt ce k]: the count expression ce of a .repeat stands for k copies *)
+Inductive flat (cnt : expr -> nat -> Prop) : list stmt -> list stmt -> Prop :=
+| flat_nil : flat cnt [] []
+| flat_leaf s r r' : is_repeat s = false -> flat cnt r r' -> flat cnt (s :: r) (s :: r')
+| flat_base e r r' : flat cnt r r' -> flat cnt (Skip e :: r) (Link e :: r')
 | flat_rep ce body copies r r' :
-    Forall (flat body) copies -> flat r r' -> flat (Repeat ce body :: r) (concat copies ++ r')
+    cnt ce (length copies) ->
+    Forall (flat cnt body) copies -> flat cnt r r' -> flat cnt (Repeat ce body :: r) (concat copies ++ r')
 | flat_inc fid body d r r' :
-    flat (cut_end body) d -> flat r r' -> flat (Include fid body :: r) (d ++ r').
+    flat cnt (cut_end body) d -> flat cnt r r' -> flat cnt (Include fid body :: r) (d ++ r').
 
-Lemma flat_app a a' : flat a a' -> forall b b', flat b b' -> flat (a ++ b) (a' ++ b').
+Lemma flat_app cnt a a' : flat cnt a a' -> forall b b', flat cnt b b' -> flat cnt (a ++ b) (a' ++ b').
 Proof.
   induction 1; intros b b' Hb; simpl; try assumption; try (constructor; auto; fail).
   - rewrite <- app_assoc. constructor; auto.
@@ -119,19 +124,17 @@ Proof.
 Qed.
 
 Record Ext (st st' : lstate) (d : list item) : Prop := mkExt {
-  ext_items : l_items st' = rev d ++ l_items st;
   ext_chain : chain (l_addr st) d (l_addr st');
   ext_labs : forall k v, klookup k (l_labels st) = Some v -> klookup k (l_labels st') = Some v;
   ext_new : forall it, In it d -> lab_ok (l_labels st') it
 }.
 
 Lemma Ext_same st1 st2 st1' st2' d :
-  l_items st1 = l_items st1' -> l_addr st1 = l_addr st1' -> l_labels st1 = l_labels st1' ->
-  l_items st2 = l_items st2' -> l_addr st2 = l_addr st2' -> l_labels st2 = l_labels st2' ->
+  l_addr st1 = l_addr st1' -> l_labels st1 = l_labels st1' ->
+  l_addr st2 = l_addr st2' -> l_labels st2 = l_labels st2' ->
   Ext st1 st2 d -> Ext st1' st2' d.
 Proof.
-  intros A1 A2 A3 B1 B2 B3 [I C L N]. constructor.
-  - rewrite <- B1, <- A1. exact I.
+  intros A2 A3 B2 B3 [C L N]. constructor.
   - rewrite <- B2, <- A2. exact C.
   - rewrite <- B3, <- A3. exact L.
   - rewrite <- B3. exact N.
@@ -142,8 +145,7 @@ Proof. constructor; simpl; auto. intros it []. Qed.
 
 Lemma Ext_trans st1 st2 st3 d1 d2 : Ext st1 st2 d1 -> Ext st2 st3 d2 -> Ext st1 st3 (d1 ++ d2).
 Proof.
-  intros [I1 C1 L1 N1] [I2 C2 L2 N2]. constructor.
-  - rewrite I2, I1, rev_app_distr, app_assoc. reflexivity.
+  intros [C1 L1 N1] [C2 L2 N2]. constructor.
   - eapply chain_app; eauto.
   - auto.
   - intros it Hin. apply in_app_or in Hin. destruct Hin as [Hin|Hin]; [|auto].
@@ -161,37 +163,43 @@ Notation lay_leaf := (lay_leaf enc alldefs allkeys exports fuel).
 Notation lay_stmt := (lay_stmt enc alldefs allkeys exports fuel).
 Notation lay_list := (lay_list enc alldefs allkeys exports fuel).
 
+(* the number of copies of a .repeat: its count expression evaluated where the layout meets it (get_as_int
+   with bitness None, unsigned) *)
+Definition layout_count (ce : expr) (k : nat) : Prop :=
+  exists st c v v', lev enc alldefs allkeys exports fuel st c ce = XOk v /\ get_as_int None true None v = Ok v' /\ k = Z.to_nat v'.
+Notation flat := (flat layout_count).
+
 Lemma put_ext st sc s sz :
   match s with Label _ | LocalLabel _ => False | _ => True end ->
-  Ext st (put st sc s sz) [mkItem (l_addr st) sc s sz].
+  Ext st (fst (put st sc s sz)) (snd (put st sc s sz)).
 Proof.
-  intros Hs. constructor; simpl; [reflexivity | split; [reflexivity|reflexivity] | auto | ].
+  intros Hs. constructor; simpl; [split; [reflexivity|reflexivity] | auto | ].
   intros it [<-|[]]. unfold lab_ok; simpl. destruct s; auto; contradiction.
 Qed.
 
 (* one leaf statement places exactly one item at the running address; that item is the statement
    itself, except that the `. = e` which fixes the base is recorded as a silent Link *)
-Lemma lay_leaf_ext inrep s st st' : lay_leaf inrep s st = XOk st' ->
-  exists it, Ext st st' [it] /\ (i_stmt it = s \/ exists e, s = Skip e /\ i_stmt it = Link e) /\
+Lemma lay_leaf_ext inrep s st st' d : lay_leaf inrep s st = XOk (st', d) ->
+  exists it, d = [it] /\ Ext st st' [it] /\ (i_stmt it = s \/ exists e, s = Skip e /\ i_stmt it = Link e) /\
              i_addr it = l_addr st /\ is_repeat s = false.
 Proof.
   unfold Asm.lay_leaf. intros H.
   destruct s; try discriminate;
-    try (cbn [sized_size] in H; xinv H; inversion H; subst; eexists; split; [apply put_ext; exact I|]; simpl; auto; fail).
+    try (cbn [sized_size] in H; xinv H; inversion H; subst; eexists; split; [reflexivity|]; split; [apply put_ext; exact I|]; simpl; auto; fail).
   - (* Label *)
     destruct inrep; [discriminate|].
     destruct (kmem (KGlobal (l_file st) name) (l_labels st) || kmem (KGlobal (l_file st) name) (l_ddots st)) eqn:E; [discriminate|].
     apply orb_false_iff in E. destruct E as [E _]. inversion H; subst.
-    exists (mkItem (l_addr st) (l_file st, Some (l_scope st)) (Label name) 0). split; [|simpl; auto].
-    constructor; simpl; [reflexivity | split; [reflexivity|lia] | | ].
+    eexists; split; [reflexivity|]. split; [|simpl; auto].
+    constructor; simpl; [split; [reflexivity|lia] | | ].
     + intros k v Hk. apply klookup_cons_other; auto.
     + intros it [<-|[]]. unfold lab_ok; simpl. rewrite Nat.eqb_refl, String.eqb_refl. reflexivity.
   - (* LocalLabel *)
     destruct inrep; [discriminate|].
     destruct (kmem (KLocal (l_file st) (l_scope st) name) (l_labels st)) eqn:E; [discriminate|].
     inversion H; subst.
-    exists (mkItem (l_addr st) (l_file st, Some (l_scope st)) (LocalLabel name) 0). split; [|simpl; auto].
-    constructor; simpl; [reflexivity | split; [reflexivity|lia] | | ].
+    eexists; split; [reflexivity|]. split; [|simpl; auto].
+    constructor; simpl; [split; [reflexivity|lia] | | ].
     + intros k v Hk. apply klookup_cons_other; auto.
     + intros it [<-|[]]. unfold lab_ok; simpl. exists (l_scope st). split; [reflexivity|].
       rewrite !Nat.eqb_refl, String.eqb_refl. reflexivity.
@@ -199,25 +207,25 @@ Proof.
     destruct inrep; [discriminate|].
     destruct (kmem (KGlobal (l_file st) name) (l_labels st) || kmem (KGlobal (l_file st) name) (l_ddots st)); [discriminate|].
     inversion H; subst.
-    exists (mkItem (l_addr st) (l_file st, Some (l_scope st)) (Assign name e) 0). split; [|simpl; auto].
-    constructor; simpl; [reflexivity | split; [reflexivity|lia] | auto | ].
+    eexists; split; [reflexivity|]. split; [|simpl; auto].
+    constructor; simpl; [split; [reflexivity|lia] | auto | ].
     intros it [<-|[]]. exact I.
   - (* Link *)
     destruct inrep; [discriminate|]. destruct (l_inc st); [discriminate|]. destruct (l_based st); [discriminate|]. inversion H; subst.
-    exists (mkItem (l_addr st) (l_file st, Some (l_scope st)) (Link e) 0). split; [|simpl; auto].
-    constructor; simpl; [reflexivity | split; [reflexivity|lia] | auto | ].
+    eexists; split; [reflexivity|]. split; [|simpl; auto].
+    constructor; simpl; [split; [reflexivity|lia] | auto | ].
     intros it [<-|[]]. exact I.
   - (* Skip *)
     destruct (l_inc st); [discriminate|]. destruct (l_based st).
-    + xinv H. inversion H; subst. eexists; split; [apply put_ext; exact I|]. simpl; auto.
+    + xinv H. inversion H; subst. eexists; split; [reflexivity|]. split; [apply put_ext; exact I|]. simpl; auto.
     + destruct inrep; [discriminate|]. inversion H; subst.
-      exists (mkItem (l_addr st) (l_file st, Some (l_scope st)) (Link e) 0). split; [|simpl; split; [right; eauto|auto]].
-      constructor; simpl; [reflexivity | split; [reflexivity|lia] | auto | ].
+      eexists; split; [reflexivity|]. split; [|simpl; split; [right; eauto|auto]].
+      constructor; simpl; [split; [reflexivity|lia] | auto | ].
       intros it [<-|[]]. exact I.
   - (* Extern *)
-    destruct inrep; [discriminate|]. inversion H; subst. eexists; split; [apply put_ext; exact I|]. simpl; auto.
+    destruct inrep; [discriminate|]. inversion H; subst. eexists; split; [reflexivity|]. split; [apply put_ext; exact I|]. simpl; auto.
   - (* ExternAll *)
-    destruct inrep; [discriminate|]. inversion H; subst. eexists; split; [apply put_ext; exact I|]. simpl; auto.
+    destruct inrep; [discriminate|]. inversion H; subst. eexists; split; [reflexivity|]. split; [apply put_ext; exact I|]. simpl; auto.
 Qed.
 
 Lemma stmt_ind2 (P : stmt -> Prop) :
@@ -231,12 +239,21 @@ Proof.
 Qed.
 
 Lemma lay_body_eq body : forall st,
-  (fix lay_body (l : list stmt) (st1 : lstate) {struct l} : xres lstate :=
+  (fix lay_body (l : list stmt) (st1 : lstate) {struct l} : lres :=
      match l with
-     | [] => XOk st1
-     | x :: r => xbind (lay_stmt true x st1) (fun st2 => lay_body r st2)
+     | [] => XOk (st1, [])
+     | x :: r => xbind (lay_stmt true x st1) (fun a => xbind (lay_body r (fst a)) (fun b => XOk (fst b, snd a ++ snd b)))
      end) body st = lay_list true body st.
-Proof. induction body as [|x r IH]; intros st; simpl; [reflexivity|]. destruct (lay_stmt true x st); simpl; auto. Qed.
+Proof.
+  induction body as [|x r IH]; intros st; simpl; [reflexivity|].
+  destruct (lay_stmt true x st); simpl; auto. rewrite IH. reflexivity.
+Qed.
+
+Lemma iter_x_ext n : forall (f g : lstate -> lres) st, (forall st, f st = g st) -> iter_x n f st = iter_x n g st.
+Proof.
+  induction n; intros f g st H; simpl; [reflexivity|]. rewrite H. destruct (g st); simpl; auto.
+  rewrite (IHn f g _ H). reflexivity.
+Qed.
 
 Lemma lay_stmt_repeat inrep ce body st :
   lay_stmt inrep (Repeat ce body) st =
@@ -246,55 +263,55 @@ Lemma lay_stmt_repeat inrep ce body st :
 Proof.
   cbn [Asm.lay_stmt]. destruct (lev enc alldefs allkeys exports fuel st _ ce); simpl; auto.
   destruct (lift (get_as_int None true None a)); simpl; auto.
-  generalize (Z.to_nat a0). intros n. revert st. induction n; intros st; simpl; auto.
-  rewrite lay_body_eq. destruct (lay_list true body st); simpl; auto.
+  apply iter_x_ext. intros st0. apply lay_body_eq.
 Qed.
 
 Lemma lay_file_eq body : forall st,
-  (fix lay_file (l : list stmt) (st1 : lstate) {struct l} : xres lstate :=
+  (fix lay_file (l : list stmt) (st1 : lstate) {struct l} : lres :=
      match l with
-     | [] => XOk st1
-     | End :: _ => XOk st1
-     | x :: r => xbind (lay_stmt false x st1) (fun st2 => lay_file r st2)
+     | [] => XOk (st1, [])
+     | End :: _ => XOk (st1, [])
+     | x :: r => xbind (lay_stmt false x st1) (fun a => xbind (lay_file r (fst a)) (fun b => XOk (fst b, snd a ++ snd b)))
      end) body st = lay_list false (cut_end body) st.
 Proof.
   induction body as [|x r IH]; intros st; [reflexivity|].
   destruct x; try reflexivity; cbn [cut_end Asm.lay_list];
-    match goal with |- xbind ?a _ = xbind ?a _ => destruct a; simpl; auto end.
+    match goal with |- xbind ?a _ = xbind ?a _ => destruct a; simpl; auto end; rewrite IH; reflexivity.
 Qed.
 
 Lemma lay_stmt_include fid body st :
   lay_stmt false (Include fid body) st =
   xbind (lay_list false (cut_end body)
-           (mkL (l_addr st) fid 0 (l_labels st) (l_ddots st) (l_items st) (l_based st) true)) (fun st' =>
-  XOk (mkL (l_addr st') (l_file st) (l_scope st) (l_labels st') (l_ddots st') (l_items st') (l_based st') (l_inc st))).
+           (mkL (l_addr st) fid 0 (l_labels st) (l_ddots st) (l_based st) true)) (fun r =>
+  XOk (mkL (l_addr (fst r)) (l_file st) (l_scope st) (l_labels (fst r)) (l_ddots (fst r)) (l_based (fst r)) (l_inc st), snd r)).
 Proof. cbn [Asm.lay_stmt]. rewrite lay_file_eq. reflexivity. Qed.
 
 Lemma lay_stmt_leaf inrep s st : is_repeat s = false -> lay_stmt inrep s st = lay_leaf inrep s st.
 Proof. destruct s; simpl; intros H; try reflexivity; discriminate. Qed.
 
 Definition stmt_ext (s : stmt) : Prop :=
-  forall inrep st st', lay_stmt inrep s st = XOk st' ->
-  exists d, Ext st st' d /\ flat [s] (map i_stmt d).
+  forall inrep st st' d, lay_stmt inrep s st = XOk (st', d) -> Ext st st' d /\ flat [s] (map i_stmt d).
 
 Lemma lay_list_ext l : Forall stmt_ext l ->
-  forall inrep st st', lay_list inrep l st = XOk st' -> exists d, Ext st st' d /\ flat l (map i_stmt d).
+  forall inrep st st' d, lay_list inrep l st = XOk (st', d) -> Ext st st' d /\ flat l (map i_stmt d).
 Proof.
-  induction 1 as [|x r Hx _ IH]; intros inrep st st' H; simpl in H.
-  - inversion H; subst. exists []. split; [apply Ext_refl|constructor].
-  - xinv H. destruct (Hx _ _ _ Ha) as [d1 [E1 F1]]. destruct (IH _ _ _ H) as [d2 [E2 F2]].
-    exists (d1 ++ d2). split; [eapply Ext_trans; eauto|].
+  induction 1 as [|x r Hx _ IH]; intros inrep st st' d H; simpl in H.
+  - inversion H; subst. split; [apply Ext_refl|constructor].
+  - xinv H. destruct a as [s1 d1]. destruct a0 as [s2 d2]. simpl in *. inversion H; subst.
+    destruct (Hx _ _ _ _ Ha) as [E1 F1]. destruct (IH _ _ _ _ Ha0) as [E2 F2].
+    split; [eapply Ext_trans; eauto|].
     rewrite map_app. change (x :: r) with ([x] ++ r). apply flat_app; auto.
 Qed.
 
-Lemma iter_ext body : Forall stmt_ext body -> forall n st st',
-  iter_x n (lay_list true body) st = XOk st' ->
-  exists copies, Ext st st' (concat copies) /\ Forall (fun c => flat body (map i_stmt c)) copies.
+Lemma iter_ext body : Forall stmt_ext body -> forall n st st' d,
+  iter_x n (lay_list true body) st = XOk (st', d) ->
+  exists copies, length copies = n /\ d = concat copies /\ Ext st st' d /\ Forall (fun c => flat body (map i_stmt c)) copies.
 Proof.
-  intros Hb. induction n as [|n IH]; intros st st' H; simpl in H.
-  - inversion H; subst. exists []. split; [apply Ext_refl|constructor].
-  - xinv H. destruct (lay_list_ext _ Hb _ _ _ Ha) as [d1 [E1 F1]]. destruct (IH _ _ H) as [cs [E2 F2]].
-    exists (d1 :: cs). split; [simpl; eapply Ext_trans; eauto|constructor; auto].
+  intros Hb. induction n as [|n IH]; intros st st' d H; simpl in H.
+  - inversion H; subst. exists []. split; [reflexivity|]. split; [reflexivity|]. split; [apply Ext_refl|constructor].
+  - xinv H. destruct a as [s1 d1]. destruct a0 as [s2 d2]. simpl in *. inversion H; subst.
+    destruct (lay_list_ext _ Hb _ _ _ _ Ha) as [E1 F1]. destruct (IH _ _ _ Ha0) as [cs [L [-> [E2 F2]]]].
+    exists (d1 :: cs). split; [simpl; congruence|]. split; [reflexivity|]. split; [simpl; eapply Ext_trans; eauto|constructor; auto].
 Qed.
 
 Lemma map_concat {A B} (f : A -> B) (ls : list (list A)) : map f (concat ls) = concat (map (map f) ls).
@@ -305,23 +322,24 @@ Proof. induction 1 as [|x r Hx _ IH]; simpl; [constructor|]. destruct x; constru
 
 Lemma lay_stmt_ext s : stmt_ext s.
 Proof.
-  induction s as [ce body IH | fid body IH | s Hs] using stmt_ind2; intros inrep st st' H.
+  induction s as [ce body IH | fid body IH | s Hs] using stmt_ind2; intros inrep st st' d H.
   - rewrite lay_stmt_repeat in H. xinv H.
-    destruct (iter_ext _ IH _ _ _ H) as [cs [E F]]. exists (concat cs). split; [exact E|].
-    rewrite map_concat. rewrite <- (app_nil_r (concat _)). constructor; [|constructor].
-    rewrite Forall_map. exact F.
-  - destruct inrep; [discriminate|]. rewrite lay_stmt_include in H. xinv H. inversion H; subst.
-    destruct (lay_list_ext _ (Forall_cut_end _ _ IH) _ _ _ Ha) as [d [E F]]. exists d. split.
-    + eapply Ext_same; [| | | | | |exact E]; reflexivity.
+    destruct (iter_ext _ IH _ _ _ _ H) as [cs [L [-> [E F]]]]. split; [exact E|].
+    rewrite map_concat. rewrite <- (app_nil_r (concat _)). constructor; [| |constructor].
+    + rewrite map_length, L. apply lift_ok' in Ha0. eexists _, _, _, _. split; [exact Ha|]. split; [exact Ha0|reflexivity].
+    + rewrite Forall_map. exact F.
+  - destruct inrep; [discriminate|]. rewrite lay_stmt_include in H. xinv H. destruct a as [s1 d1]. simpl in H. inversion H; subst.
+    destruct (lay_list_ext _ (Forall_cut_end _ _ IH) _ _ _ _ Ha) as [E F]. split.
+    + eapply Ext_same; [| | | |exact E]; reflexivity.
     + rewrite <- (app_nil_r (map i_stmt d)). constructor; [exact F|constructor].
   - rewrite lay_stmt_leaf in H by exact Hs.
-    destruct (lay_leaf_ext _ _ _ _ H) as [it [E [[Es|[e [Es1 Es2]]] _]]]; exists [it]; split; auto; simpl.
+    destruct (lay_leaf_ext _ _ _ _ _ H) as [it [-> [E [[Es|[e [Es1 Es2]]] _]]]]; split; auto; simpl.
     + rewrite Es. constructor; [exact Hs|constructor].
     + rewrite Es1, Es2. constructor. constructor.
 Qed.
 
-Lemma lay_program_ext l inrep st st' : lay_list inrep l st = XOk st' ->
-  exists d, Ext st st' d /\ flat l (map i_stmt d).
+Lemma lay_program_ext l inrep st st' d : lay_list inrep l st = XOk (st', d) ->
+  Ext st st' d /\ flat l (map i_stmt d).
 Proof. apply lay_list_ext. apply Forall_forall. intros x _. apply lay_stmt_ext. Qed.
 
 End Layout.
@@ -402,8 +420,7 @@ Lemma assemble_full_inv enc p f : assemble_full enc p = XOk f ->
   exists st dv,
     f_exports f = exports /\
     find_base enc alldefs allkeys exports fuel q = XOk (f_base f) /\
-    lay_list enc alldefs allkeys exports fuel false q (mkL (f_base f) 0 0 [] [] [] false false) = XOk st /\
-    f_items f = rev (l_items st) /\
+    lay_list enc alldefs allkeys exports fuel false q (mkL (f_base f) 0 0 [] [] false false) = XOk (st, f_items f) /\
     def_values enc alldefs allkeys exports fuel (l_labels st) (l_ddots st) = XOk dv /\
     f_syms f = l_labels st ++ dv /\
     xmapM (emit_item enc (f_exports f) (f_syms f)) (f_items f) = XOk (f_chunks f) /\
@@ -414,12 +431,13 @@ Proof.
   match type of H with (if ?c then _ else _) = _ => destruct c end; [discriminate|].
   xinv H.
   match type of H with (if ?c then _ else _) = _ => destruct c eqn:G end; [|discriminate].
-  inversion H; subst; simpl. exists a0, a1. auto 12.
+  destruct a0 as [st items]. inversion H; subst; simpl in *. exists st, a1. auto 12.
 Qed.
 
 Theorem layout_thm enc p f : assemble_full enc p = XOk f ->
   length (f_chunks f) = length (f_items f) /\
-  flat (cut_end p) (map i_stmt (f_items f)) /\
+  flat (layout_count enc (collect_defs 0 0 (cut_end p)) (collect_keys 0 0 (cut_end p)) (f_exports f)
+          (S (length (collect_defs 0 0 (cut_end p))))) (cut_end p) (map i_stmt (f_items f)) /\
   (forall k it bs, nth_error (f_items f) k = Some it -> nth_error (f_chunks f) k = Some bs ->
       i_size it = zlen bs /\
       i_addr it = f_base f + zlen (concat (firstn k (f_chunks f))) /\
@@ -428,15 +446,14 @@ Theorem layout_thm enc p f : assemble_full enc p = XOk f ->
       lab_ok (f_syms f) it) /\
   zlen (concat (f_chunks f)) = fold_right (fun it acc => i_size it + acc) 0 (f_items f).
 Proof.
-  intros H. destruct (assemble_full_inv _ _ _ H) as [st [dv [_ [Hb [Hl [Hi [Hd [Hs [He Hg]]]]]]]]].
-  destruct (lay_program_ext _ _ _ _ _ _ _ _ _ Hl) as [d [[I C L N] F]]. simpl in I, C.
-  rewrite app_nil_r in I. assert (Hd' : f_items f = d) by (rewrite Hi, I, rev_involutive; reflexivity).
+  intros H. destruct (assemble_full_inv _ _ _ H) as [st [dv [Hx [Hb [Hl [Hd [Hs [He Hg]]]]]]]].
+  destruct (lay_program_ext _ _ _ _ _ _ _ _ _ _ Hl) as [[C L N] F]. simpl in C.
   destruct (xmapM_nth _ _ _ He) as [Hlen _].
-  pose proof (place_blocks _ _ _ _ (eq_ind_r (fun x => chain (f_base f) x (l_addr st)) C Hd') Hlen) as Hp.
+  pose proof (place_blocks _ _ _ _ C Hlen) as Hp.
   pose proof (consistent_blocks (f_items f) (f_chunks f)) as Hc. rewrite Hg in Hc.
   destruct (address_invariant_block _ (f_base f) Hc) as [Inv Tot].
   rewrite out_blocks in * by exact Hlen. rewrite adv_blocks in Tot by exact Hlen.
-  split; [exact Hlen|]. split; [rewrite Hd'; exact F|]. split; [|symmetry; exact Tot].
+  split; [exact Hlen|]. split; [rewrite Hx; exact F|]. split; [|symmetry; exact Tot].
   intros k it bs Hk1 Hk2.
   assert (Hk3 : nth_error (map i_addr (f_items f)) k = Some (i_addr it)) by (rewrite nth_error_map, Hk1; reflexivity).
   pose proof (nth_error_combine _ _ _ _ _ Hk3 Hk2) as Hk.
@@ -448,6 +465,6 @@ Proof.
     rewrite A2. replace (Z.to_nat (i_addr it - f_base f)) with (length (concat (firstn k (f_chunks f)))).
     + rewrite skipn_app, skipn_all, Nat.sub_diag. reflexivity.
     + rewrite A1. unfold Block.zlen, zlen. lia.
-  - rewrite Hs. eapply lab_ok_mono; [intros k0 v; apply klookup_app|]. apply N. rewrite <- Hd'.
+  - rewrite Hs. eapply lab_ok_mono; [intros k0 v; apply klookup_app|]. apply N.
     eapply nth_error_In; eauto.
 Qed.
